@@ -135,8 +135,8 @@ class ObjRunner:
         full = dict(env)
         for k, v in self.module_env(finfo.module.rel).items():
             full.setdefault(k, v)
-        it = (ForkInterp(full, self.oracle, call_hook=self.hook, loop_hook=self.loop, strict=True) if self.fork
-              else Interp(full, call_hook=self.hook, loop_hook=self.loop, strict=True))
+        it = (ForkInterp(full, self.oracle, call_hook=self.hook, loop_hook=self.loop, strict=True, name_hook=self.names) if self.fork
+              else Interp(full, call_hook=self.hook, loop_hook=self.loop, strict=True, name_hook=self.names))
         it.run(stmts)
         return it.env
 
@@ -174,8 +174,8 @@ class ObjRunner:
             # module-level constants of the callee's module: one object per runner, so state kept in them is shared between calls
             for k, v in self.module_env(f.module.rel).items():
                 env.setdefault(k, v)
-            it = (ForkInterp(env, self.oracle, call_hook=self.hook, loop_hook=self.loop, strict=True) if self.fork
-                  else Interp(env, call_hook=self.hook, loop_hook=self.loop, strict=True))
+            it = (ForkInterp(env, self.oracle, call_hook=self.hook, loop_hook=self.loop, strict=True, name_hook=self.names) if self.fork
+                  else Interp(env, call_hook=self.hook, loop_hook=self.loop, strict=True, name_hook=self.names))
             try:
                 it.run(node.body)
             except Flow as fl:
@@ -189,6 +189,30 @@ class ObjRunner:
             self.depth -= 1
 
     # ------------------------------------------------------------------ hooks
+    _BUILTIN_TYPES = {"str": str, "int": int, "float": float, "list": list, "dict": dict, "tuple": tuple, "set": set, "bool": bool}
+
+    def names(self, interp, node):
+        """Class references: `Amino`, `aa.Amino` (module alias), builtin type names."""
+        if isinstance(node, ast.Name):
+            if node.id in interp.env:
+                return NotImplemented
+            if self.cinfo(node.id) is not None and any(c.module.rel == getattr(getattr(node, "_module", None), "rel", self.rel)
+                                                         for c in self.prog.classes_by_name.get(node.id, [])):
+                return Obj({"__class__": node.id, "__is_class__": True})
+            if node.id in self._BUILTIN_TYPES:
+                return self._BUILTIN_TYPES[node.id]
+            return NotImplemented
+        target_rel = self._module_alias(node, node.value.id)
+        if target_rel is not None:
+            mod = self.prog.modules[target_rel]
+            for st in mod.tree.body:
+                if isinstance(st, ast.ClassDef) and st.name == node.attr:
+                    return Obj({"__class__": node.attr, "__is_class__": True})
+                if isinstance(st, ast.Assign) and isinstance(st.value, ast.Name) and any(isinstance(t, ast.Name) and t.id == node.attr for t in st.targets):
+                    if self.cinfo(st.value.id) is not None:
+                        return Obj({"__class__": st.value.id, "__is_class__": True})  # DA = ADE
+        return NotImplemented
+
     def loop(self, interp, st):
         seq = interp.ev(st.iter)
         if isinstance(seq, Unknown):
@@ -234,15 +258,16 @@ class ObjRunner:
             if res is not NotImplemented:
                 return res
         if name == "isinstance" and len(call.args) == 2:
-            classes = call.args[1].elts if isinstance(call.args[1], ast.Tuple) else [call.args[1]]
+            second = interp.ev(call.args[1])
+            classes = list(second) if isinstance(second, (tuple, list)) else [second]
             out = False
             for c in classes:
-                cname = U(c).split(".")[-1]
-                if cname in ("dict", "list", "str", "int", "float", "tuple"):
-                    out = out or (isinstance(args[0], {"dict": dict, "list": list, "str": str, "int": int, "float": float, "tuple": tuple}[cname])
-                                  and not (isinstance(args[0], dict) and "__class__" in args[0]))
+                if isinstance(c, type):
+                    out = out or (isinstance(args[0], c) and not (isinstance(args[0], dict) and "__class__" in args[0]))
+                elif isinstance(c, dict) and c.get("__is_class__"):
+                    out = out or self.is_instance(args[0], c["__class__"])
                 else:
-                    out = out or self.is_instance(args[0], cname)
+                    raise AnalysisError(f"object model: isinstance against an undetermined class in {U(call)[:60]!r}")
             return out
         # regular expressions on model strings (the standard library's semantics, not repository code)
         if isinstance(call.func, ast.Name) and name not in interp.env and hasattr(__import__("math"), name) and args \
